@@ -111,11 +111,20 @@ def lastD (xs : List Str) : Str := xs.getLastD []
 /-- `getOp`. `none` = `(nil, false)`; `some .nil` = `(nil, true)`. The Go code indexes
     `keyPath[len-1]`; every call site passes a non-empty path (see `Walk`), and for the
     empty path the model answers with the key `""`, which no table contains. -/
+def sMoreLikeThis : Str := "moreLikeThis".toList
+def sLike : Str := "like".toList
+
+/-- `withinSearchUserDocument` (added by a `fix:`): the last key lies inside the user documents of
+    `moreLikeThis.like` — some `moreLikeThis`, `like` pair is followed by at least one more key -/
+def withinSearchUserDocument : List Str → Bool
+  | a :: b :: c :: rest => (a = sMoreLikeThis && b = sLike) || withinSearchUserDocument (b :: c :: rest)
+  | _ => false
+
 def getOp (T : Tables) (kp : List Str) (S : Bool) : Option Meta :=
   if S then
     match traverse T true kp T.searchAgg with
     | some m => some m
-    | none => lookup (lastD kp) T.search
+    | none => if withinSearchUserDocument kp then none else lookup (lastD kp) T.search
   else
     match lookup (lastD kp) T.core with
     | some m => some m
